@@ -13,7 +13,8 @@ ARCH = [{"bin1": "x86_64", "bin2": "ppc64le", "src": "src", "unknown": "x86-64"}
 PATHS = {"rel1": "Server/x86_64/os/repodata/modules.yaml", "rel2": "mods/other.yaml", "abs": "/abs/modules.yaml", "empty": ""}
 RPMTOK = {"r1": "httpd-0:2.4.6-80.x86_64", "r2": "mod_ssl-1:2.4.6-80.x86_64"}
 SIZES = {"s1": 1234, "s2": (1 << 33) + 5}
-CKS = {"one": {"sha256": "a" * 64}, "two": {"md5": "b" * 32, "sha256": "c" * 64}, "notadict": ["sha256", "x"]}
+# "two": types deliberately NOT in alphabetical insertion order
+CKS = {"one": {"sha256": "a" * 64}, "two": {"sha256": "c" * 64, "md5": "b" * 32, "SHA1": "d" * 40}, "notadict": ["sha256", "x"]}
 
 
 def uid_arg(m, form, mods):
@@ -73,12 +74,13 @@ def replay_case(case):
     focus = case.get("focus", "C12")
     mm, xf = _new(Modules), _new(ExtraFiles)
     fails = []
+    shared = {}       # callers commonly pass the SAME list object for several entries: the library must not alias it
     for step, ev in enumerate(case["hist"]):
         before = (copy.deepcopy(mm.modules), copy.deepcopy(xf.extra_files))
         out, exc = "ok", None
         try:
             if ev["op"] == "modadd":
-                rl = "not-a-list" if ev["rl"] == ["notalist"] else [RPMTOK[r] for r in ev["rl"]]
+                rl = "not-a-list" if ev["rl"] == ["notalist"] else shared.setdefault(tuple(ev["rl"]), [RPMTOK[r] for r in ev["rl"]])
                 mm.add("" if ev["v"] == "empty" else ev["v"], arch[ev["a"]], uid_arg(ev["m"], ev["uform"], mods),
                        "module-tag-1" if ev["koji"] == "tag" else "", PATHS[ev["path"]],
                        "package" if ev["cat"] == "invalid" else ev["cat"], rl)
@@ -90,7 +92,7 @@ def replay_case(case):
         except Exception as e:
             out, exc = type(e).__name__, e
         if out != ev["out"]:
-            if focus == "C12":
+            if focus in ("C12", "C03"):
                 fails.append("step %d %s: model %s, code %s%s" % (step, json.dumps(ev, sort_keys=True), ev["out"], out,
                                                                   " (%s)" % exc if exc is not None else ""))
             return fails
@@ -100,7 +102,7 @@ def replay_case(case):
             return fails
     em, ef = exp_mods(case["mods"], mods, arch), exp_files(case["files"], arch)
     if mm.modules != em or xf.extra_files != ef:
-        if focus == "C12":
+        if focus in ("C12", "C03"):
             fails.append("mapping after %s differs: model %s / %s ; code %s / %s"
                          % (json.dumps(case["hist"], sort_keys=True)[:600], json.dumps(em, sort_keys=True)[:500],
                             json.dumps(ef, sort_keys=True)[:300], json.dumps(mm.modules, sort_keys=True)[:500],
